@@ -22,8 +22,8 @@ fn find_spans(re: &Regex, t: &str) -> Result<Option<Vec<Option<(usize, usize)>>>
 struct Host {
     name: &'static str,
     build: fn(&str) -> String,
-    /// expected captures on text `t` for literal `s`
-    expect: fn(&str, &str) -> Option<Vec<Option<(usize, usize)>>>,
+    /// expected captures on text `t` for literal `s` when the search starts at byte `from`
+    expect: fn(&str, &str, usize) -> Option<Vec<Option<(usize, usize)>>>,
     applies: fn(&str) -> bool,
 }
 
@@ -33,24 +33,24 @@ fn occ(t: &str, s: &str, from: usize) -> Option<usize> {
 
 fn hosts() -> Vec<Host> {
     vec![
-        Host { name: "E", build: |e| e.to_string(), expect: |t, s| occ(t, s, 0).map(|p| vec![Some((p, p + s.len()))]), applies: |_| true },
-        Host { name: "(?:E)", build: |e| format!("(?:{})", e), expect: |t, s| occ(t, s, 0).map(|p| vec![Some((p, p + s.len()))]), applies: |_| true },
+        Host { name: "E", build: |e| e.to_string(), expect: |t, s, from| occ(t, s, from).map(|p| vec![Some((p, p + s.len()))]), applies: |_| true },
+        Host { name: "(?:E)", build: |e| format!("(?:{})", e), expect: |t, s, from| occ(t, s, from).map(|p| vec![Some((p, p + s.len()))]), applies: |_| true },
         Host {
             name: "(E)\\1",
             build: |e| format!("({})\\1", e),
-            expect: |t, s| {
+            expect: |t, s, from| {
                 let ss = format!("{}{}", s, s);
-                occ(t, &ss, 0).map(|p| vec![Some((p, p + 2 * s.len())), Some((p, p + s.len()))])
+                occ(t, &ss, from).map(|p| vec![Some((p, p + 2 * s.len())), Some((p, p + s.len()))])
             },
             applies: |_| true,
         },
-        Host { name: "(?=E)E", build: |e| format!("(?={}){}", e, e), expect: |t, s| occ(t, s, 0).map(|p| vec![Some((p, p + s.len()))]), applies: |_| true },
+        Host { name: "(?=E)E", build: |e| format!("(?={}){}", e, e), expect: |t, s, from| occ(t, s, from).map(|p| vec![Some((p, p + s.len()))]), applies: |_| true },
         Host {
             name: "[ab]*E",
             build: |e| format!("[ab]*{}", e),
-            expect: |t, s| {
+            expect: |t, s, from| {
                 // leftmost start, then the longest run of a/b that still lets s follow
-                for p in (0..=t.len()).filter(|&i| t.is_char_boundary(i)) {
+                for p in (from..=t.len()).filter(|&i| t.is_char_boundary(i)) {
                     let run = t[p..].bytes().take_while(|b| *b == b'a' || *b == b'b').count();
                     for k in (0..=run).rev() {
                         if t[p + k..].starts_with(s) {
@@ -65,21 +65,22 @@ fn hosts() -> Vec<Host> {
         Host {
             name: "(?<=E)",
             build: |e| format!("(?<={})", e),
-            expect: |t, s| occ(t, s, 0).map(|p| vec![Some((p + s.len(), p + s.len()))]),
+            // the look-behind may see text in front of the search start
+            expect: |t, s, from| (from..=t.len()).find(|&q| t.is_char_boundary(q) && t[..q].ends_with(s)).map(|q| vec![Some((q, q))]),
             applies: |_| true,
         },
         Host {
             name: "(?>E)c?",
             build: |e| format!("(?>{})c?", e),
-            expect: |t, s| occ(t, s, 0).map(|p| vec![Some((p, p + s.len() + if t[p + s.len()..].starts_with('c') { 1 } else { 0 }))]),
+            expect: |t, s, from| occ(t, s, from).map(|p| vec![Some((p, p + s.len() + if t[p + s.len()..].starts_with('c') { 1 } else { 0 }))]),
             applies: |_| true,
         },
         Host {
             name: "(?:E){2}",
             build: |e| format!("(?:{}){{2}}", e),
-            expect: |t, s| {
+            expect: |t, s, from| {
                 let ss = format!("{}{}", s, s);
-                occ(t, &ss, 0).map(|p| vec![Some((p, p + 2 * s.len()))])
+                occ(t, &ss, from).map(|p| vec![Some((p, p + 2 * s.len()))])
             },
             // an empty group is not repeatable (the crate's rule, nothing to do with escape)
             applies: |s| !s.is_empty(),
@@ -87,8 +88,8 @@ fn hosts() -> Vec<Host> {
         Host {
             name: "(?!E)(?s:.)",
             build: |e| format!("(?!{})(?s:.)", e),
-            expect: |t, s| {
-                for (p, c) in t.char_indices() {
+            expect: |t, s, from| {
+                for (p, c) in t.char_indices().filter(|(p, _)| *p >= from) {
                     if !t[p..].starts_with(s) {
                         return Some(vec![Some((p, p + c.len_utf8()))]);
                     }
@@ -101,8 +102,8 @@ fn hosts() -> Vec<Host> {
         Host {
             name: "(?<!-)[ab]E",
             build: |e| format!("(?<!-)[ab]{}", e),
-            expect: |t, s| {
-                for (p, c) in t.char_indices() {
+            expect: |t, s, from| {
+                for (p, c) in t.char_indices().filter(|(p, _)| *p >= from) {
                     if (c == 'a' || c == 'b') && t[p + 1..].starts_with(s) && !t[..p].ends_with('-') {
                         return Some(vec![Some((p, p + 1 + s.len()))]);
                     }
@@ -114,11 +115,74 @@ fn hosts() -> Vec<Host> {
         Host {
             name: "E\\d?(?=)",
             build: |e| format!("{}\\d?(?=)", e),
-            expect: |t, s| occ(t, s, 0).map(|p| vec![Some((p, p + s.len() + if t[p + s.len()..].starts_with(|c: char| c.is_ascii_digit()) { 1 } else { 0 }))]),
+            expect: |t, s, from| occ(t, s, from).map(|p| vec![Some((p, p + s.len() + if t[p + s.len()..].starts_with(|c: char| c.is_ascii_digit()) { 1 } else { 0 }))]),
             applies: |_| true,
         },
-        Host { name: "(?x:E)", build: |e| format!("(?x:{})", e), expect: |t, s| occ(t, s, 0).map(|p| vec![Some((p, p + s.len()))]), applies: |s| !s.chars().any(|c| c.is_whitespace()) },
-        Host { name: "(?i:E)x?", build: |e| format!("(?i:{})x?", e), expect: |t, s| occ(t, s, 0).map(|p| vec![Some((p, p + s.len() + if t[p + s.len()..].starts_with('x') { 1 } else { 0 }))]), applies: |s| !s.chars().any(|c| c.is_alphabetic()) },
+
+        // key / value: the escaped string behind a look-behind for itself
+        Host {
+            name: "(?<=E)E",
+            build: |e| format!("(?<={}){}", e, e),
+            expect: |t, s, from| (from..=t.len()).find(|&q| t.is_char_boundary(q) && t[..q].ends_with(s) && t[q..].starts_with(s)).map(|q| vec![Some((q, q + s.len()))]),
+            applies: |_| true,
+        },
+        Host {
+            name: "(?<=E)(?s:.)",
+            build: |e| format!("(?<={})(?s:.)", e),
+            expect: |t, s, from| t.char_indices().find(|(q, _)| *q >= from && t[..*q].ends_with(s)).map(|(q, c)| vec![Some((q, q + c.len_utf8()))]),
+            applies: |_| true,
+        },
+        // E between VM-compiled neighbours, in front of loops whose body can match the empty
+        // string (the instructions with a separate exit target)
+        Host {
+            name: "(?=(?s:.)?)E(?:(?=c)c|)*(?!!)",
+            build: |e| format!("(?=(?s:.)?){}(?:(?=c)c|)*(?!!)", e),
+            expect: |t, s, from| {
+                let mut p = from;
+                while let Some(q) = occ(t, s, p) {
+                    let after = q + s.len();
+                    let run = t[after..].bytes().take_while(|b| *b == b'c').count();
+                    for k in (0..=run).rev() {
+                        if !t[after + k..].starts_with('!') {
+                            return Some(vec![Some((q, after + k))]);
+                        }
+                    }
+                    p = q + t[q..].chars().next().map_or(1, |c| c.len_utf8());
+                    if p > t.len() {
+                        break;
+                    }
+                }
+                None
+            },
+            applies: |_| true,
+        },
+        Host {
+            name: "(?!!)(E)(?:(?=c)c|)*?(?![c])\\1?",
+            build: |e| format!("(?!!)({})(?:(?=c)c|)*?(?![c])\\1?", e),
+            expect: |t, s, from| {
+                let mut p = from;
+                while let Some(q) = occ(t, s, p) {
+                    if !t[q..].starts_with('!') {
+                        let after = q + s.len();
+                        let run = t[after..].bytes().take_while(|b| *b == b'c').count();
+                        let mut end = after + run;
+                        if t[end..].starts_with(s) {
+                            end += s.len();
+                        }
+                        return Some(vec![Some((q, end)), Some((q, after))]);
+                    }
+                    p = q + t[q..].chars().next().map_or(1, |c| c.len_utf8());
+                    if p > t.len() {
+                        break;
+                    }
+                }
+                None
+            },
+            // an s that starts with `c` would make "the run of c after s" ambiguous
+            applies: |s| !s.contains('c') && !s.contains('!'),
+        },
+        Host { name: "(?x:E)", build: |e| format!("(?x:{})", e), expect: |t, s, from| occ(t, s, from).map(|p| vec![Some((p, p + s.len()))]), applies: |s| !s.chars().any(|c| c.is_whitespace()) },
+        Host { name: "(?i:E)x?", build: |e| format!("(?i:{})x?", e), expect: |t, s, from| occ(t, s, from).map(|p| vec![Some((p, p + s.len() + if t[p + s.len()..].starts_with('x') { 1 } else { 0 }))]), applies: |s| !s.chars().any(|c| c.is_alphabetic()) },
     ]
 }
 
@@ -160,14 +224,31 @@ fn check_string(s: &str, hs: &[Host], acc: &mut Acc) {
                 continue;
             }
         };
-        for t in &texts {
+        for (ti, t) in texts.iter().enumerate() {
             acc.evals += 1;
-            let want = (h.expect)(t, s);
+            let want = (h.expect)(t, s, 0);
             let got = guard_plain(|| find_spans(&re, t));
             if got != Got::Val(Ok(want.clone())) {
                 let mut v = Violation::new("C17", "literal-match", &pat, t, 0, "captures", show_caps(&want), got.show());
                 v.options = json!({"s": s, "host": h.name});
                 acc.violate(v);
+                continue;
+            }
+            // the same search started at every later character boundary (all texts for short
+            // strings, a rotating third of them otherwise)
+            if s.chars().count() > 2 && (ti + s.len()) % 3 != 0 {
+                continue;
+            }
+            for from in (1..=t.len()).filter(|&i| t.is_char_boundary(i)) {
+                acc.evals += 1;
+                let want = (h.expect)(t, s, from);
+                let got = captures_from(&re, t, from);
+                if got != Got::Val(want.clone()) {
+                    let mut v = Violation::new("C17", "literal-match", &pat, t, from, "captures_from_pos", show_caps(&want), got.show());
+                    v.options = json!({"s": s, "host": h.name});
+                    acc.violate(v);
+                    break;
+                }
             }
         }
     }
@@ -218,7 +299,7 @@ pub fn run(ctx: &Ctx) -> Outcome {
     let mut out = Outcome::new(acc);
     out.distinct_nontrivial = out.acc.distinct;
     out.exhaustive = true;
-    out.rule = format!("all strings of length <= {} over {} symbols (every ASCII punctuation character incl. all regex meta-characters, a b 1 space newline é € 😀) plus {} seeded random strings of length 3-10; for each s: Cow::Borrowed iff s contains none of \\.+*?()|[]{{}}^$# ; Regex::new(host(escape(s))) compiles for {} hosts (E, (?:E), (E)\\1, (?=E)E, [ab]*E, (?<=E), (?>E)c?, (?:E){{2}}, (?!E)., (?<!-)[ab]E, E\\d?(?=), (?x:E) for whitespace-free s, (?i:E)x? for letter-free s) and on texts u+s+v, s+s, s with its last character altered the captures equal what plain string search predicts. Non-trivial: distinct strings containing a meta-character.", maxlen, SYMS.len(), n_random, hs_count);
+    out.rule = format!("all strings of length <= {} over {} symbols (every ASCII punctuation character incl. all regex meta-characters, a b 1 space newline é € 😀) plus {} seeded random strings of length 3-10; for each s: Cow::Borrowed iff s contains none of \\.+*?()|[]{{}}^$# ; Regex::new(host(escape(s))) compiles for {} hosts (E, (?:E), (E)\\1, (?=E)E, [ab]*E, (?<=E), (?>E)c?, (?:E){{2}}, (?!E)., (?<!-)[ab]E, E\\d?(?=), (?<=E)E, (?<=E)., (?=.?)E(?:(?=c)c|)*(?!!), (?!!)(E)(?:(?=c)c|)*?(?![c])\\1?, (?x:E) for whitespace-free s, (?i:E)x? for letter-free s) and on texts u+s+v, s+s, s with its last character altered the captures equal what plain string search predicts, for a search from the start and from every later character boundary. Non-trivial: distinct strings containing a meta-character.", maxlen, SYMS.len(), n_random, hs_count);
     out.assumptions = vec!["'needs escaping' is the set \\.+*?()|[]{}^$# (regex meta-characters plus the comment character #)".into()];
     out
 }
